@@ -450,7 +450,32 @@ fn render_tus(ts: &[TU], ctx: Ctx, out: &mut String) -> Option<()> {
     Some(())
 }
 
+thread_local! {
+    /// the word being rendered is the value of an assignment (`v=…`, `export v=…`): the parser reads it with
+    /// `parse_tilde_everywhere_after` — a tilde prefix also after every unquoted colon, its name ended by a colon too
+    static ASG_MODE: std::cell::Cell<bool> = const { std::cell::Cell::new(false) };
+}
+
+/// in an assignment value: would the parser read the literal `~` at `i` as a tilde prefix?
+fn asg_tilde_at(w: &[WU], i: usize) -> bool {
+    if w.get(i) != Some(&lit('~')) || !(i == 0 || w[i - 1] == lit(':')) {
+        return false;
+    }
+    for u in &w[i + 1..] {
+        match u {
+            WU::Unq(TU::Lit('/')) | WU::Unq(TU::Lit(':')) => return true,
+            WU::Unq(TU::Lit(_)) => {}
+            _ => return false,
+        }
+    }
+    true
+}
+
 fn render_wus(w: &[WU], ctx: Ctx, out: &mut String) -> Option<()> {
+    let asg = ctx == Ctx::Top && ASG_MODE.with(|m| m.get());
+    if asg && (0..w.len()).any(|i| asg_tilde_at(w, i)) {
+        return None;
+    }
     // a leading unquoted `~` in a word context is a tilde prefix for the parser, never a literal
     if matches!(ctx, Ctx::Top | Ctx::BraceW) && w.first() == Some(&WU::Unq(TU::Lit('~'))) {
         // `parse_tilde`: the literals after `~` run to a `/` or to the end of the word → a tilde prefix;
@@ -509,14 +534,17 @@ fn render_wus(w: &[WU], ctx: Ctx, out: &mut String) -> Option<()> {
             WU::Tilde { name, slash } => {
                 // only at the front of a word lexed in word context; the name is a run of unquoted literals that
                 // ends at the first `/` or at the end of the word
-                if i != 0 || !matches!(ctx, Ctx::Top | Ctx::BraceW) {
+                let after_colon = asg && i > 0 && w[i - 1] == lit(':');
+                if !(i == 0 || after_colon) || !matches!(ctx, Ctx::Top | Ctx::BraceW) {
                     return None;
                 }
-                if !name.chars().all(|c| c != '/' && lit_ok(c, ctx)) {
+                if !name.chars().all(|c| c != '/' && !(asg && c == ':') && lit_ok(c, ctx)) {
                     return None;
                 }
-                match (slash, w.get(1)) {
+                match (slash, w.get(i + 1)) {
                     (true, Some(WU::Unq(TU::Lit('/')))) | (false, None) => {}
+                    // in an assignment value a colon ends the name as well
+                    (false, Some(WU::Unq(TU::Lit(':')))) if asg => {}
                     _ => return None,
                 }
                 out.push('~');
@@ -603,6 +631,32 @@ fn from_word(w: &sx::Word) -> Option<Vec<WU>> {
             })
         })
         .collect()
+}
+
+/// The value word the real parser sees in `v=<src>` (an assignment) or in `export v=<src>` (an operand of a declaration
+/// utility, whose value part is read the same way).
+fn parse_assign_value(src: &str, export: bool) -> Result<sx::Word, String> {
+    let text = if export { format!("export v={src}") } else { format!("v={src}") };
+    let cmd: sx::SimpleCommand = text.parse().map_err(|_| "syntax-error".to_string())?;
+    if export {
+        if cmd.words.len() != 2 || !cmd.assigns.is_empty() {
+            return Err(format!("words={}", cmd.words.len()));
+        }
+        let mut w = cmd.words[1].0.clone();
+        if w.units.len() < 2 || w.units[0] != sx::WordUnit::Unquoted(sx::TextUnit::Literal('v')) {
+            return Err("export-operand".into());
+        }
+        w.units.drain(..2);
+        Ok(w)
+    } else {
+        if cmd.assigns.len() != 1 || !cmd.words.is_empty() {
+            return Err(format!("assigns={}", cmd.assigns.len()));
+        }
+        match &cmd.assigns[0].value {
+            sx::Value::Scalar(w) => Ok(w.clone()),
+            _ => Err("array".into()),
+        }
+    }
 }
 
 /// The word the real parser sees as the only argument of `probe <src>`.
@@ -989,16 +1043,17 @@ fn run_w(state_toks: &[&str], word_text: &str) -> (String, String) {
     };
     let ctx = st.ctx.clone();
     let single = matches!(ctx.as_str(), "asg" | "exp" | "here");
-    if matches!(ctx.as_str(), "asg" | "exp") {
-        // in an assignment the parser looks for tilde prefixes after every unquoted colon as well
-        // (`parse_tilde_everywhere_after`) and ends a name at a colon: only words for which that reading and the
-        // reading of a command word coincide are placed here
-        for w in &words {
-            if !asg_ok(w) {
-                return ("unrenderable".into(), "-".into());
-            }
+    // in an assignment the parser looks for tilde prefixes after every unquoted colon as well
+    // (`parse_tilde_everywhere_after`) and ends a name at a colon: the renderer and the parse oracle follow that reading
+    let asg_mode = matches!(ctx.as_str(), "asg" | "exp");
+    ASG_MODE.with(|m| m.set(asg_mode));
+    struct ResetAsg;
+    impl Drop for ResetAsg {
+        fn drop(&mut self) {
+            ASG_MODE.with(|m| m.set(false));
         }
     }
+    let _reset = ResetAsg;
     let mut srcs = vec![];
     for w in &words {
         let src = if ctx == "here" {
@@ -1068,7 +1123,13 @@ fn run_w(state_toks: &[&str], word_text: &str) -> (String, String) {
                 } else if src.is_empty() {
                     Ok(sx::Word { units: vec![], location: Location::dummy("") })
                 } else {
-                    parse_probe_arg(src)
+                    if ctx2 == "asg" {
+                        parse_assign_value(src, false)
+                    } else if ctx2 == "exp" {
+                        parse_assign_value(src, true)
+                    } else {
+                        parse_probe_arg(src)
+                    }
                 };
                 let w = match parsed {
                     Err(e) => {
@@ -2238,6 +2299,30 @@ fn tilde_family() -> Vec<Vec<WU>> {
     out
 }
 
+/// assignment values whose reading differs from that of a command word (`parse_tilde_everywhere_after`): tilde prefixes
+/// after unquoted colons, names ended by a colon; and the `~` after a colon that stays literal
+fn asg_tilde_family() -> Vec<Vec<WU>> {
+    vec![
+        vec![lit('a'), lit(':'), tilde("", false)],
+        vec![tilde("", false), lit(':'), tilde("a", true), lit('/'), lit('x')],
+        vec![tilde("", false), lit(':'), tilde("", false), lit(':'), lit('b')],
+        vec![tilde("", true), lit('/'), lit(':'), tilde("", true), lit('/'), lit('c')],
+        vec![lit(':'), tilde("", false)],
+        vec![tilde("", false), lit(':')],
+        vec![tilde("a", false), lit(':'), lit('b')],
+        vec![tilde("", false), lit(':'), tilde("zz", false)],
+        vec![tilde("root", false), lit(':'), tilde("zz", true), lit('/'), lit(':'), tilde("a", false)],
+        vec![WU::Unq(braced("u", Mo::Sw { colon: true, act: '-', w: vec![tilde("", false)] }))],
+        vec![WU::Unq(braced("u", Mo::Sw { colon: true, act: '-', w: vec![lit('a'), lit(':'), lit('~')] }))],
+        vec![lit('a'), lit(':'), lit('~'), WU::Unq(raw("x"))],
+        vec![lit('a'), lit(':'), WU::Sq("~".into())],
+        vec![lit('a'), lit(':'), WU::Dq(vec![TU::Lit('~')]), lit(':'), tilde("", false)],
+        vec![WU::Unq(raw("x")), lit(':'), tilde("", false)],
+        vec![WU::Dq(vec![TU::Lit('a')]), lit(':'), tilde("", true), lit('/'), WU::Unq(raw("x"))],
+        vec![lit('a'), lit('b'), lit(':'), tilde("a", false), lit(':'), lit(':'), tilde("", true), lit('/')],
+    ]
+}
+
 const HOME_STATES: [&str; 10] = [
     "HOME=U", "HOME=s-", "HOME=s2f", "HOME=s2f68", "HOME=s2f682f", "HOME=s2f612062", "HOME=s2f683a78", "HOME=a1:2f78",
     "HOME=s2f2f", "HOME=s2f2a",
@@ -2469,7 +2554,7 @@ fn main() {
 
     // 1. every single unit of the wide alphabet, several states each
     let wide = top_units(true);
-    let k1 = if thorough { 60 } else { 10 };
+    let k1 = if thorough { 60 } else { 6 };
     for u in &wide {
         let w = vec![u.clone()];
         if !renderable(&w) {
@@ -2485,7 +2570,7 @@ fn main() {
         }
     }
     // 1b. the will_split family, exhaustively, in every context
-    let kf = if thorough { 12 } else { 3 };
+    let kf = if thorough { 12 } else { 2 };
     for w in will_split_family() {
         if !renderable(&w) {
             continue;
@@ -2531,7 +2616,7 @@ fn main() {
     }
     // 2. all pairs (thorough: also triples) over the base alphabet
     let base = top_units(false);
-    let k2 = if thorough { 10 } else { 2 };
+    let k2 = if thorough { 10 } else { 1 };
     for a in &base {
         for b in &base {
             let w = vec![a.clone(), b.clone()];
@@ -2557,7 +2642,7 @@ fn main() {
         }
     }
     // 3. random words up to 6 units, nesting depth 2
-    let n3 = if thorough { 1_000_000 } else { 20_000 };
+    let n3 = if thorough { 1_000_000 } else { 14_000 };
     let mut made = 0;
     while made < n3 {
         let w = random_word(&mut rng, Ctx::Top, 2, 6);
@@ -2587,6 +2672,15 @@ fn main() {
                 } else {
                     out(w_case(&st, &w));
                 }
+            }
+        }
+        // assignment values read by `parse_tilde_everywhere_after`
+        let kasg = if thorough { 60 } else { 8 };
+        for w in asg_tilde_family() {
+            for k in 0..kasg {
+                let st = tilde_state(&mut trng);
+                let ctx = if k % 3 == 0 { "exp" } else { "asg" };
+                out(format!("W ctx={} {} | {}", ctx, st, word_string(&w)));
             }
         }
         // a tilde prefix in front of a random word
